@@ -49,6 +49,8 @@ THEOREMS = ['C18_run_fresh_state', 'C18_history_independent',
             'C18_stage_history_independent',
             'C18_leaky_stage_depends_on_history', 'C18_stage_shapes_linked',
             'C18_history_independent_linked',
+            'C18_chained_pipeline_history_independent_linked',
+            'C18_chained_pipeline_shapes_linked',
             'C18_volume_text_order_irrelevant',
             'C18_remove_keys_order_irrelevant',
             'C18_sorted_depends_on_set_only',
@@ -57,23 +59,38 @@ THEOREMS = ['C18_run_fresh_state', 'C18_history_independent',
             'C18_audit_effects_allowlisted', 'C18_audit_ambient_allowlisted',
             'C18_audit_fail_closed']
 TRUSTED = [
-    'hand-written model coq/C18/Model.v (modelled, tied by execution only)',
+    'hand-written models coq/C18/Model.v and coq/C18/Upstream.v (modelled, '
+    'tied by execution only); the other owners\' models imported read-only '
+    'in LinkStages.v / ChainStages.v are tied by their owners',
     'the translator harness/c18_audit.py (Python ast -> Footprint.v): '
     'syntactic, name-based, fail-closed; its classification of a construct '
     'is trusted, the decision over the classified footprint is proved',
     'the allow-list coq/C18/Allow.v: each reason is a human judgement',
-    'RUNTIME FACTS ARE TESTED, NOT PROVED: seed-independence of CPython\'s '
-    'iteration over sets of ints, absence of hidden state in imported '
-    'modules (tatsu, numpy), the input file not being written',
-    'harness: generators, worker processes, PEG shim replacing TatSu',
+    'RUNTIME FACTS TESTED, NOT PROVED (notes/C18.md section 5): '
+    '(1) CPython iterates a set of ints in an order that does not depend on '
+    'the hash seed, the process or earlier runs (it is NOT ascending); '
+    '(2) same bytes in fresh processes under every hash seed tried; '
+    '(3) same bytes after every tried history in one interpreter; '
+    '(4) no dependence on the working directory or on the environment '
+    'variables tried, no environment variable read by the converter; '
+    '(5) no module-/class-level state of the converter\'s modules changes '
+    'during a conversion (third-party modules not inspected); '
+    '(6) the input file is not written and no stray file is left; '
+    '(7) stages C18 does not model itself are covered by (2)-(6) only',
+    'harness: generators, worker processes, observation hooks, PEG shim '
+    'replacing TatSu',
 ]
 ASSUMPTIONS = [
     'fresh process = a new CPython 3.12 interpreter with the PEG shim '
-    'installed (the repository\'s TatSu grammar object is not exercised)',
+    'installed (the repository\'s TatSu grammar object is not exercised); '
+    'most fresh runs are forked from a per-seed zygote that imported the '
+    'converter but never converted, a sample is cold-started',
     'the output is compared after removing the header line that echoes the '
     'command line (as the property text allows)',
     '--cache is exercised only with a private directory per run, except in '
     'the witness of the known finding cache_option_stale_disk_cache',
+    'set_preserving order: the iteration order handed to the model delivers '
+    'exactly the elements of the set (hypothesis of the order theorems)',
 ]
 
 HERE = Path(__file__).resolve().parent.parent
